@@ -318,6 +318,13 @@ func genReq(rt *rapid.T, l string, faulty bool) Req {
 	if faulty && (r.Kind == "trace" || r.Kind == "trace_json" || r.Kind == "search") {
 		r.Result.TraceShape = rapid.SampledFrom([]int{0, 0, 1, 2, 3}).Draw(rt, l+".traceshape")
 	}
+	switch r.Kind {
+	case "labels", "label_values", "prom_labels", "prom_label_values", "tags", "tag_values", "tags_v2", "tag_values_v2", "series", "prom_series":
+		// a NULL among the rows of a list is a result-set shape, not a fault
+		if rapid.IntRange(0, 4).Draw(rt, l+".null?") == 0 {
+			r.Result.NullAtRow = rapid.IntRange(1, 4).Draw(rt, l+".nullat")
+		}
+	}
 	if strings.HasPrefix(r.Kind, "prof") || r.Kind == "render_diff" {
 		// what the Pyroscope tables hold: well formed, or (with faults on) any shape a database can return
 		shapes := []int{0, 0, 0, 3, 8}
